@@ -40,6 +40,9 @@ def glen(group):
     return sum((RV.vlen(v) for v in group), Fr(0))
 
 
+GM_NAMES = ["Violin", "Flute", "Acoustic Grand Piano", "Church Organ", "Vibraphone", "Acoustic Bass", "Trumpet", "Gunshot"]
+
+
 class Cfg(object):
     def __init__(self, **kw):
         self.groups = plain_groups()
@@ -70,6 +73,9 @@ class Cfg(object):
         self.empty_track_p = 0  # 0 = never; otherwise one composition in empty_track_p has a track without any bar among the others
         self.subclass_p = 0  # 0 = never; otherwise one sounding entry in subclass_p is held in a user subclass of NoteContainer, and one MIDI instrument in 2 is a user subclass of MidiInstrument
         self.unsorted_p = 0  # 0 = never; otherwise one chord in unsorted_p is not in ascending order (as after nc[i] = note)
+        self.twin_entry_p = 0  # 0 = never; otherwise one bar in twin_entry_p gets, next to a sounding entry, an entry of the same value with the same pitches spelled differently
+        self.reuse_p = 0  # 0 = never; otherwise one bar in reuse_p has a later entry that is the very same container object as an earlier one (possibly with another value)
+        self.gm_names = True  # MIDI instruments may carry a General MIDI name (independent of their number)
         self.twin_p = 0  # 0 = never; otherwise one bar in twin_p is followed by its enharmonic twin (same pitches, other spelling)
         self.__dict__.update(kw)
 
@@ -119,6 +125,21 @@ def bar_st(draw, cfg, meter=None, key=None, fill=None, channel=None):
                 break
             entries.append(_entry(draw, cfg, g[0], content))
             rem -= glen(g)
+    if cfg.twin_entry_p and len(entries) >= 2 and draw(st.integers(0, cfg.twin_entry_p - 1)) == 0:
+        pairs = [i for i in range(1, len(entries)) if entries[i]["v"] == entries[i - 1]["v"] and entries[i - 1]["notes"]]
+        if pairs:
+            i = draw(st.sampled_from(pairs))
+            entries[i] = dict(entries[i], notes=[respell(n, cfg.octaves) for n in entries[i - 1]["notes"]])
+            entries[i].pop("reuse", None)
+    if cfg.reuse_p and len(entries) >= 2 and draw(st.integers(0, cfg.reuse_p - 1)) == 0:
+        srcs = [j for j in range(len(entries) - 1) if entries[j]["notes"] and "bpm" not in entries[j] and "reuse" not in entries[j]]
+        if srcs:
+            j = draw(st.sampled_from(srcs))
+            i = draw(st.integers(j + 1, len(entries) - 1))
+            if "reuse" not in entries[i] and not any(e.get("reuse") == i for e in entries):
+                entries[i] = {"v": entries[i]["v"], "notes": [list(n) for n in entries[j]["notes"]], "reuse": j}
+                if entries[j].get("sub"):
+                    entries[i]["sub"] = True
     return {"key": key, "meter": list(meter), "entries": entries}
 
 
@@ -167,7 +188,9 @@ def track_st(draw, cfg):
     kind = draw(st.sampled_from(cfg.instruments))
     instr = None
     if kind == "midi":
-        instr = {"kind": "midi", "nr": draw(st.integers(0, 127)), "name": draw(cfg.text)}
+        # the number is what counts; the name may well be a General MIDI name that stands for another number
+        instr = {"kind": "midi", "nr": draw(st.integers(0, 127) | st.sampled_from([1, 1, 0, 127])),
+                 "name": draw(cfg.text | st.sampled_from(GM_NAMES)) if cfg.gm_names else draw(cfg.text)}
         if cfg.subclass_p and draw(st.booleans()):
             instr["sub"] = True
     elif kind == "generic":
@@ -225,6 +248,8 @@ def features(comp_or_track):
             f.add("tuplet")
         if any(e["v"][0] == "ticks" for e in es):
             f.add("tick-value")
+        if any("reuse" in e for e in es):
+            f.add("one-container-object-twice")
         if any(e["v"][0] == "num" for e in es):
             f.add("sub-tick-value")
         if not t["bars"]:
